@@ -111,7 +111,9 @@ impl Stdfs {
     pub fn all_dirs<T: AsRef<Path>>(path: T) -> RvResult<Vec<PathBuf>> {
         let mut paths: Vec<PathBuf> = vec![];
         let src = StdfsEntry::from(path)?;
-        if !src.is_dir() {
+
+        // Link exclusion like `paths`, `dirs` and `files` i.e. a link to a directory is not a directory
+        if !src.is_dir() || src.is_symlink() {
             return Err(PathError::is_not_dir(src.path_buf()).into());
         }
         for entry in Stdfs::entries(src.path())?.min_depth(1).sort_by_name().dirs() {
@@ -144,7 +146,9 @@ impl Stdfs {
     pub fn all_files<T: AsRef<Path>>(path: T) -> RvResult<Vec<PathBuf>> {
         let mut paths: Vec<PathBuf> = vec![];
         let src = StdfsEntry::from(path)?;
-        if !src.is_dir() {
+
+        // Link exclusion like `paths`, `dirs` and `files` i.e. a link to a directory is not a directory
+        if !src.is_dir() || src.is_symlink() {
             return Err(PathError::is_not_dir(src.path_buf()).into());
         }
         for entry in Stdfs::entries(src.path())?.min_depth(1).sort_by_name().files() {
@@ -179,7 +183,9 @@ impl Stdfs {
     pub fn all_paths<T: AsRef<Path>>(path: T) -> RvResult<Vec<PathBuf>> {
         let mut paths: Vec<PathBuf> = vec![];
         let src = StdfsEntry::from(path)?;
-        if !src.is_dir() {
+
+        // Link exclusion like `paths`, `dirs` and `files` i.e. a link to a directory is not a directory
+        if !src.is_dir() || src.is_symlink() {
             return Err(PathError::is_not_dir(src.path_buf()).into());
         }
         for entry in Stdfs::entries(src.path())?.min_depth(1).sort_by_name() {
